@@ -192,10 +192,10 @@ def generate_dependent_dispatch(tup, handlers, next_call, slf, name, err, nerr):
         )
 
     def argname(x):
-        return f"ARG{x}" if isinstance(x, int) else x
+        return local(f"ARG{x}") if isinstance(x, int) else x
 
     def argprovide(x):
-        return f"ARG{x}" if isinstance(x, int) else f"{x}={x}"
+        return local(f"ARG{x}") if isinstance(x, int) else f"{x}={x}"
 
     def codegen(typ, arg):
         cg = generate_checking_code(typ)
@@ -211,6 +211,15 @@ def generate_dependent_dispatch(tup, handlers, next_call, slf, name, err, nerr):
             # Keyword arguments are variables of the generated function under
             # their own name: no injected object may take that name
             ndb.register(k)
+
+    locals_ = {}
+
+    def local(name):
+        # ... nor may the function's own identifiers (ARG0, HANDLER0, MATCH0,
+        # SUMMATION, FALLTHROUGH...)
+        if name not in locals_:
+            locals_[name] = ndb.gensym(name)
+        return locals_[name]
     conjs = []
 
     exclusive = False
@@ -263,25 +272,33 @@ def generate_dependent_dispatch(tup, handlers, next_call, slf, name, err, nerr):
 
     body = []
     if keyexpr:
-        body.append(f"HANDLER = {ndb[keyed]}.get({keyexpr}, FALLTHROUGH)")
-        body.append(f"return HANDLER({slf}{argcall})")
+        body.append(
+            f"{local('HANDLER')} = {ndb[keyed]}.get({keyexpr}, {local('FALLTHROUGH')})"
+        )
+        body.append(f"return {local('HANDLER')}({slf}{argcall})")
 
     elif exclusive:
         for i, conj in enumerate(conjs):
-            body.append(f"if {conj}: return HANDLER{i}({slf}{argcall})")
-        body.append(f"return FALLTHROUGH({slf}{argcall})")
+            body.append(
+                f"if {conj}: return {local(f'HANDLER{i}')}({slf}{argcall})"
+            )
+        body.append(f"return {local('FALLTHROUGH')}({slf}{argcall})")
 
     else:
         for i, conj in enumerate(conjs):
-            body.append(f"MATCH{i} = {conj}")
+            body.append(f"{local(f'MATCH{i}')} = {conj}")
 
-        summation = " + ".join(f"MATCH{i}" for i in range(len(handlers)))
-        body.append(f"SUMMATION = {summation}")
-        body.append("if SUMMATION == 1:")
+        summation = " + ".join(
+            local(f"MATCH{i}") for i in range(len(handlers))
+        )
+        body.append(f"{local('SUMMATION')} = {summation}")
+        body.append(f"if {local('SUMMATION')} == 1:")
         for i, (h, types) in enumerate(handlers):
-            body.append(f"    if MATCH{i}: return HANDLER{i}({slf}{argcall})")
-        body.append("elif SUMMATION == 0:")
-        body.append(f"    return FALLTHROUGH({slf}{argcall})")
+            body.append(
+                f"    if {local(f'MATCH{i}')}: return {local(f'HANDLER{i}')}({slf}{argcall})"
+            )
+        body.append(f"elif {local('SUMMATION')} == 0:")
+        body.append(f"    return {local('FALLTHROUGH')}({slf}{argcall})")
         body.append("else:")
         body.append(f"    raise {ndb[err]}")
 
@@ -290,12 +307,12 @@ def generate_dependent_dispatch(tup, handlers, next_call, slf, name, err, nerr):
 
     inject = ndb.variables
     for i, (h, types) in enumerate(handlers):
-        inject[f"HANDLER{i}"] = h
+        inject[local(f"HANDLER{i}")] = h
 
     def raise_error(*args, **kwargs):
         raise nerr
 
-    inject["FALLTHROUGH"] = (next_call and next_call[0]) or raise_error
+    inject[local("FALLTHROUGH")] = (next_call and next_call[0]) or raise_error
 
     fn = instantiate_code(
         symbol="__DEPENDENT_DISPATCH__", code=code, inject=inject
